@@ -173,9 +173,10 @@ def compatible(con, box):
     return False
 
 
-def gen_prim_term(rng, solver, clock=True, interrupt=True):
+def gen_prim_term(rng, solver, clock=True, interrupt=True, gnt=False):
     pool = ['VTR', 'COG', 'NCOG', 'SolutionImprovement', 'NormalizedCostTarget', 'VTRCOG',
             'PopulationSpread', 'EvaluationLimits', 'COG', 'NCOG', 'VTR']
+    if gnt: pool += ['GradientNormTolerance', 'GradientNormTolerance']
     if solver != 'Powell': pool.append('CRT')
     if clock: pool += ['TimeLimits', 'TimeLimits']
     if interrupt: pool.append('SolverInterrupt')
@@ -192,12 +193,14 @@ def gen_prim_term(rng, solver, clock=True, interrupt=True):
     elif t == 'PopulationSpread': kw = {'tolerance': tol()}
     elif t == 'EvaluationLimits':
         kw = {'generations': rng.choice([None, 0, 1, 3, 8, 20]), 'evaluations': rng.choice([None, 1, 10, 40, 200])}
+    elif t == 'GradientNormTolerance':
+        kw = {'tolerance': rng.choice([1e-3, 0.1, 1.0, 10.0, 100.0]), 'norm': rng.choice(['inf', 'inf', 2, 1])}
     elif t == 'TimeLimits':
         kw = {'seconds': rng.choice([0, 1e-3, 1, 60, 3600, 86400]), 'system': rng.choice([None, True, False])}
     else: kw = {}
     return {'t': t, 'kw': kw}
 
-def gen_term_tree(rng, solver, depth=3, clock=True, interrupt=True, _count=None, top=True):
+def gen_term_tree(rng, solver, depth=3, clock=True, interrupt=True, _count=None, top=True, gnt=False):
     """And/Or/When tree; with small probability a member is a reference to a node built
     earlier in the same tree (the same condition object listed twice)"""
     if _count is None: _count = [0]
@@ -205,9 +208,9 @@ def gen_term_tree(rng, solver, depth=3, clock=True, interrupt=True, _count=None,
         return {'t': 'ref', 'i': rng.randrange(_count[0])}
     if depth <= 0 or rng.random() < 0.45:
         _count[0] += 1
-        return gen_prim_term(rng, solver, clock, interrupt)
+        return gen_prim_term(rng, solver, clock, interrupt, gnt)
     t = rng.choice(['And', 'Or', 'Or', 'When', 'And'])
     n = 1 if t == 'When' else rng.choice([1, 2, 2, 3])
-    kids = [gen_term_tree(rng, solver, depth - 1, clock, interrupt, _count, False) for _ in range(n)]
+    kids = [gen_term_tree(rng, solver, depth - 1, clock, interrupt, _count, False, gnt) for _ in range(n)]
     _count[0] += 1
     return {'t': t, 'of': kids}
